@@ -16,6 +16,7 @@ package main
 import (
 	"bytes"
 	"context"
+	"crypto/tls"
 	"encoding/base64"
 	"encoding/json"
 	"fmt"
@@ -25,6 +26,7 @@ import (
 	"net/http"
 	"net/url"
 	"os"
+	"path/filepath"
 	"regexp"
 	"strconv"
 	"strings"
@@ -52,6 +54,7 @@ type qparam struct {
 
 type reqCase struct {
 	creds  int // 0: no credentials configured; 1: two pairs; 2: one pair
+	sv     string // server configuration: <cfg.Tracing><cfg.HTTPLogFile set><cfg.TLS set>, e.g. "100"; "" = "000"
 	auth   string
 	pf     bool
 	method string
@@ -112,8 +115,8 @@ func (c reqCase) inputTokens(withAttrs bool) string {
 	if withAttrs && strings.HasPrefix(body, "pj.") {
 		body = "pj." + segAttrs(body[3:])
 	}
-	return fmt.Sprintf("req cr=%s au=%s pf=%s m=%s p=%s sl=%s q=%s md=%s b=%s rpc=%s",
-		credsTok(c.creds), c.auth, b01(c.pf), c.method, p, b01(c.slash), qs, md, body, c.rpc)
+	return fmt.Sprintf("req sv=%s cr=%s au=%s pf=%s m=%s p=%s sl=%s q=%s md=%s b=%s rpc=%s",
+		svTok(c.sv), credsTok(c.creds), c.auth, b01(c.pf), c.method, p, b01(c.slash), qs, md, body, c.rpc)
 }
 
 func parseReqCase(f []string) (reqCase, error) {
@@ -127,6 +130,7 @@ func parseReqCase(f []string) (reqCase, error) {
 		kv[t[:i]] = t[i+1:]
 	}
 	c.creds = credsOfTok(kv["cr"])
+	c.sv = svTok(kv["sv"])
 	c.auth = kv["au"]
 	c.pf = kv["pf"] == "1"
 	c.method = kv["m"]
@@ -437,17 +441,58 @@ var authGrid = []string{
 // ---- the servers ----
 
 type server struct {
-	api  *rest.API
-	addr string
-	rec  *recorder
+	api    *rest.API
+	addr   string
+	rec    *recorder
+	scheme string
 }
 
-func newServer(creds int) *server {
+// svTok normalises a server-configuration token: three 0/1 digits <Tracing><HTTPLogFile><TLS>.
+func svTok(t string) string {
+	if len(t) != 3 {
+		return "000"
+	}
+	for _, c := range t {
+		if c != '0' && c != '1' {
+			return "000"
+		}
+	}
+	return t
+}
+
+var allSv = []string{"000", "100", "010", "001", "110", "101", "011", "111"}
+
+// newServer builds the API for one configuration: the fields NewAPIWithHost / setupHTTP branch on are
+// cfg.Tracing (the ochttp layer), cfg.HTTPLogFile (where the access log goes), cfg.TLS (tls.Listen); the libp2p
+// listener (setupLibp2p) serves the same http.Server and is not exercised here.
+func newServer(creds int, sv string) *server {
 	cfg := &rest.Config{}
 	cfg.Default()
 	laddr, _ := ma.NewMultiaddr("/ip4/127.0.0.1/tcp/0")
 	cfg.HTTPListenAddr = []ma.Multiaddr{laddr}
 	cfg.BasicAuthCredentials = credsMap(creds)
+	cfg.Tracing = sv[0] == '1'
+	if sv[1] == '1' {
+		dir := os.Getenv("VERIF_SCRATCH")
+		if dir == "" {
+			dir = os.TempDir()
+		}
+		cfg.HTTPLogFile = filepath.Join(dir, fmt.Sprintf("c11-http-%d-%s.log", creds, sv))
+		os.Remove(cfg.HTTPLogFile) // one file per configuration, started afresh (the API appends)
+	}
+	scheme := "http"
+	if sv[2] == '1' {
+		repo := os.Getenv("VERIF_REPO")
+		if repo == "" {
+			repo = "/repo"
+		}
+		cert, err := tls.LoadX509KeyPair(filepath.Join(repo, "api/rest/test/server.crt"), filepath.Join(repo, "api/rest/test/server.key"))
+		if err != nil {
+			panic(err)
+		}
+		cfg.TLS = &tls.Config{Certificates: []tls.Certificate{cert}}
+		scheme = "https"
+	}
 	a, err := rest.NewAPI(context.Background(), cfg)
 	if err != nil {
 		panic(err)
@@ -458,10 +503,10 @@ func newServer(creds int) *server {
 	if err != nil || len(addrs) == 0 {
 		panic(fmt.Sprint("no http address: ", err))
 	}
-	s := &server{api: a, addr: addrs[0], rec: r}
+	s := &server{api: a, addr: addrs[0], rec: r, scheme: scheme}
 	// wait until it serves
 	for i := 0; i < 200; i++ {
-		resp, err := http.Get("http://" + s.addr + "/nope-startup")
+		resp, err := insecureClient.Get(scheme + "://" + s.addr + "/nope-startup")
 		if err == nil {
 			ioutil.ReadAll(resp.Body)
 			resp.Body.Close()
@@ -472,12 +517,30 @@ func newServer(creds int) *server {
 	return s
 }
 
+var insecureClient = &http.Client{
+	Timeout:       20 * time.Second,
+	Transport:     &http.Transport{TLSClientConfig: &tls.Config{InsecureSkipVerify: true}, MaxIdleConnsPerHost: 4},
+	CheckRedirect: func(*http.Request, []*http.Request) error { return http.ErrUseLastResponse },
+}
+
 type harness struct {
-	srv [3]*server // by credential configuration
+	mu  sync.Mutex
+	srv map[string]*server // by credential configuration and server configuration, built on demand
 	hc  *http.Client
 }
 
-func (h *harness) server(creds int) *server { return h.srv[creds] }
+func (h *harness) server(creds int, sv string) *server {
+	sv = svTok(sv)
+	key := strconv.Itoa(creds) + sv
+	h.mu.Lock()
+	defer h.mu.Unlock()
+	if s, ok := h.srv[key]; ok {
+		return s
+	}
+	s := newServer(creds, sv)
+	h.srv[key] = s
+	return s
+}
 
 // panicLog counts "http: panic serving" lines written by net/http's default error log: a handler
 // that panics makes the server drop the connection, which the client sees as a transport error.
@@ -505,13 +568,7 @@ var panics = &panicLog{}
 func init() { log.SetOutput(panics) }
 
 func newHarness() *harness {
-	return &harness{
-		srv: [3]*server{newServer(0), newServer(1), newServer(2)},
-		hc: &http.Client{
-			Timeout:       20 * time.Second,
-			CheckRedirect: func(*http.Request, []*http.Request) error { return http.ErrUseLastResponse },
-		},
-	}
+	return &harness{srv: map[string]*server{}, hc: insecureClient}
 }
 
 // bodyShape counts the JSON documents of a response body.
@@ -541,8 +598,8 @@ func opsTok(ops []string) string {
 // exec sends the request and returns the output tokens, or an error when the
 // infrastructure (not the API) failed.
 func (h *harness) exec(c reqCase) (string, error) {
-	s := h.server(c.creds)
-	u := "http://" + s.addr + c.rawPath()
+	s := h.server(c.creds, c.sv)
+	u := s.scheme + "://" + s.addr + c.rawPath()
 	if q := c.rawQuery(); q != "" {
 		u += "?" + q
 	}
@@ -852,6 +909,14 @@ func authFor(r *common.Rng, creds int) string {
 	return authGrid[r.Intn(len(authGrid))]
 }
 
+// svFor draws a server configuration: the default one two times out of three
+func svFor(r *common.Rng) string {
+	if r.Chance(2, 3) {
+		return "000"
+	}
+	return allSv[1+r.Intn(len(allSv)-1)]
+}
+
 func credsFor(r *common.Rng, num, den int) int {
 	if !r.Chance(num, den) {
 		return 0
@@ -863,6 +928,7 @@ func credsFor(r *common.Rng, num, den int) int {
 func genReq(r *common.Rng) reqCase {
 	c := reqCase{rpc: "ok", body: "-"}
 	c.creds = credsFor(r, 1, 3)
+	c.sv = svFor(r)
 	c.auth = authFor(r, c.creds)
 	c.rpc = []string{"ok", "ok", "ok", "err", "nf"}[r.Intn(5)]
 	if r.Chance(1, 12) {
@@ -1186,6 +1252,30 @@ func sysCases() []reqCase {
 			for v := 0; v < 2; v++ {
 				out = append(out, reqCase{method: t.method, auth: "n", segs: fill(r, t, -1), query: []qparam{{key: "filter", class: 'i', val: strconv.Itoa(v)}}, rpc: "ok", body: "-"})
 			}
+		}
+	}
+	// every other server configuration (tracing / access-log file / TLS): every template with its method, a wrong
+	// method, an unknown path, a preflight and an undecodable option, in the credential situations that matter
+	svSits := []sit{{0, "n"}, {1, "n"}, {1, "m0"}, {1, "b.nobody.e"}, {1, "b.u0.wrong"}, {1, "b.u0.p0"}, {2, "b.u1.p1"}, {2, "b.u0.p0"}}
+	for _, sv := range allSv[1:] {
+		for ti, t := range templates {
+			for _, a := range svSits {
+				c := reqCase{sv: sv, creds: a.cr, auth: a.au, method: t.method, segs: fill(r.Fork(uint64(9000+ti)), t, -1), rpc: "ok", body: "-"}
+				if t.body {
+					c.body = "pj.p1"
+				}
+				out = append(out, c)
+			}
+			out = append(out, reqCase{sv: sv, creds: 1, auth: "n", method: "PUT", segs: fill(r, t, -1), rpc: "ok", body: "-"})
+			out = append(out, reqCase{sv: sv, creds: 1, auth: "n", pf: true, method: "OPTIONS", segs: fill(r, t, -1), rpc: "ok", body: "-"})
+			if nvars(t) > 0 {
+				out = append(out, reqCase{sv: sv, creds: 0, auth: "n", method: t.method, segs: fill(r, t, 0), rpc: "ok", body: "-"})
+			}
+		}
+		for _, a := range svSits {
+			out = append(out, reqCase{sv: sv, creds: a.cr, auth: a.au, method: "GET", segs: []string{"nope"}, rpc: "ok", body: "-"})
+			out = append(out, reqCase{sv: sv, creds: a.cr, auth: a.au, method: "POST", segs: []string{"pins", "c3"},
+				query: []qparam{{key: "replication-min", class: 'i', val: "0"}}, rpc: "ok", body: "-"})
 		}
 	}
 	return out
